@@ -56,23 +56,39 @@ TBegin ==
          [] ev.op = "destroy" -> BeginDestroy
          [] ev.op = "ctor"    -> BeginConstruct
 
+\* Settle, additionally passing over flushes that are only a side effect of a size query when the
+\* implementation did not perform them (the next observed call is not that write)
+RECURSIVE SettleObs(_, _)
+SettleObs(S, lab) ==
+    LET S1 == Settle(S, cfg, now)
+    IN  IF ~AtRest(S1) /\ OptionalFlushPc(S1.sk.pc) /\ NeedsSys(S1) /\ lab \notin SysLabels(S1)
+        THEN SettleObs([S1 EXCEPT !.sk.pc = FlushNext(S1.sk.pc)], lab)
+        ELSE S1
+
+WRITE_ACTIVE == Lab("write", ACTIVE, NONE, "")
+
 TSys ==
     /\ IsEvent("Sys")
     /\ sk.alive
-    /\ LET S == Settle(Here, cfg, now)
-           lab == Lab(ev.c, ev.f, ev.t, ev.m)
-       IN  /\ NeedsSys(S)
-           /\ SysEnabled(S, lab, ev.ok)
-           \* a write to the active file carries exactly the bytes the spec expects
-           /\ (ev.c = "write" /\ ev.f = ACTIVE) =>
-                 ev.n = (IF S.sk.pc = "appW" THEN S.g.rlen[S.sk.msg] ELSE SumLen(S.g, S.sk.buf))
-           /\ Become(DoSys(S, cfg, now, lab, ev.ok))
+    /\ LET lab == Lab(ev.c, ev.f, ev.t, ev.m)
+           S == SettleObs(Here, lab)
+       IN  IF ~AtRest(S) /\ NeedsSys(S) /\ lab \in ObservableLabels(S)
+           THEN /\ SysEnabled(S, lab, ev.ok)
+                \* a write to the active file carries exactly the bytes the spec expects
+                /\ (lab = WRITE_ACTIVE) =>
+                      ev.n = (IF S.sk.pc = "appW" THEN S.g.rlen[S.sk.msg] ELSE SumLen(S.g, S.sk.buf))
+                /\ Become(DoSys(S, cfg, now, lab, ev.ok))
+           ELSE \* a flush at a moment of the implementation's choosing: the whole buffer, in one write
+                /\ lab = WRITE_ACTIVE /\ ev.ok
+                /\ S.sk.open /\ S.sk.buf # <<>>
+                /\ ev.n = SumLen(S.g, S.sk.buf)
+                /\ Become(FlushNow(S, now))
     /\ UNCHANGED <<cfg, now>>
 
 \* the public call returned: no libc call is outstanding and the directory is the spec's
 TEnd ==
     /\ IsEvent("End")
-    /\ LET S == Settle(Here, cfg, now)
+    /\ LET S == SettleObs(Here, Lab("return", NONE, NONE, ""))
        IN  /\ AtRest(S)
            /\ MatchDir(S.dir, ev.files)
            /\ Become(S)
